@@ -638,6 +638,21 @@ pub fn generate(s: &mut Session, thorough: bool) -> bool {
             one(s, &mut cov, "long-one-shot", &b);
         }
     }
+    // (vi-b) very long runs of entries with no scalers block in between (a bound on the number of
+    // entries per run: seed C07-7 stopped after 8192), one shot and fed in two pieces
+    for n in [4095usize, 4096, 8191, 8192, 8193, 10_000, 16_384, 20_000, 65_537] {
+        let mut b = Vec::with_capacity(4 * n);
+        for i in 0..n {
+            if i % 977 == 976 {
+                b.extend(mk_word(i % 2 == 0, (i as u32) & 0x7F_FFFF));
+            } else {
+                b.extend(ts_word((i % 59) as u8, (i as u32 * 7919) & 0xFF_FFFF));
+            }
+        }
+        one(s, &mut cov, "long-run-no-blocks", &b);
+        let c = 4 * (n / 3) + 2;
+        feed(s, &mut cov, "long-run-no-blocks", &cut(&b, &[c]));
+    }
     // byte-by-byte feeding of a medium stream (every piece has length 1), and all-empty pieces
     for _ in 0..3 * scale {
         let mut b = hw_stream(&mut rng, 30, 5);
